@@ -899,6 +899,42 @@ def seed_docs():
   return out
 
 
+def sink_docs():
+  """documents that carry every attribute the reader knows, in three time syntaxes (frame / tick offsets, clock time with
+  frames, plain seconds): ALL corruptions of the catalogue are applied to every attribute of them, independently of the seed,
+  so that the set of failing corruption classes does not depend on sampling"""
+  docs = []
+  for name, tx in (("frames-ticks", lambda v, i: f"{v * 25}f" if i % 2 == 0 else f"{v * 1000}t"),
+                   ("clock-frames", lambda v, i: f"00:00:{v:02d}:00"), ("seconds", lambda v, i: f"{v}s")):
+    s0 = {q(XML, "id"): "s0", q(TTS, "color"): "red", q(TTS, "fontStyle"): "italic", q(TTS, "fontWeight"): "bold",
+          q(TTS, "textDecoration"): "underline noLineThrough noOverline", q(TTS, "fontSize"): "100%", q(TTS, "fontFamily"): "default", q(TTS, "lineHeight"): "125%", q(TTS, "opacity"): "0.5",
+          q(TTS, "wrapOption"): "noWrap", q(TTS, "direction"): "rtl", q(TTS, "unicodeBidi"): "embed", q(TTS, "textOutline"): "red 5%",
+          q(TTS, "textShadow"): "1px 1px 2px red", q(TTS, "textEmphasis"): "filled circle before", q(TTS, "textCombine"): "all",
+          q(TTS, "rubyAlign"): "center", q(TTS, "rubyPosition"): "before", q(TTS, "shear"): "10%", q(TTS, "luminanceGain"): "1.5",
+          q(EBUTTS, "multiRowAlign"): "center", q(EBUTTS, "linePadding"): "0.5c", q(ITTS, "fillLineGap"): "true", q(TTS, "visibility"): "visible",
+          q(TTS, "display"): "auto", q(TTS, "textAlign"): "center", q(TTS, "backgroundColor"): "blue"}
+    head = [mk("style", s0), mk("style", {q(XML, "id"): "s1", "style": "s0", q(TTS, "color"): "blue"}),
+            mk("style", {q(XML, "id"): "unused", q(TTS, "color"): "lime", q(TTS, "backgroundColor"): "black", q(TTS, "textDecoration"): "overline",
+                         q(TTS, "fontWeight"): "bold"}),
+            mk("initial", {q(TTS, "color"): "yellow"}),
+            mk("region", {q(XML, "id"): "r1", "begin": tx(0, 0), "end": tx(30, 1), "style": "s1", q(TTS, "origin"): "10% 10%", q(TTS, "extent"): "80% 80%",
+                          q(TTS, "padding"): "1% 2%", q(TTS, "showBackground"): "whenActive", q(TTS, "overflow"): "visible",
+                          q(TTS, "displayAlign"): "after", q(TTS, "writingMode"): "lrtb", q(TTS, "position"): "center", q(TTS, "backgroundColor"): "#00000080"},
+               [mk("set", {"begin": tx(2, 0), "dur": tx(3, 1), q(TTS, "visibility"): "hidden"}), mk("style", {q(TTS, "color"): "white"})])]
+    body = mk("body", {"begin": tx(1, 0), q(TTS, "color"): "aqua", "timeContainer": "par", q(XML, "space"): "default"}, [
+      mk("div", {"region": "r1", "style": "s0", "begin": tx(1, 1), "dur": tx(20, 0)}, [
+        mk("p", {"begin": tx(1, 0), "end": tx(10, 1), "style": "s1 s0", q(TTS, "textAlign"): "end", q(TTS, "color"): "rgb(1,2,3)",
+                 q(TTS, "backgroundColor"): "#102030", q(XML, "space"): "preserve", "timeContainer": "seq"},
+           [mk("set", {"dur": tx(1, 0), q(TTS, "color"): "green"}), " x ",
+            mk("span", {"dur": tx(2, 1), q(TTS, "fontWeight"): "normal", q(TTS, "textDecoration"): "noUnderline lineThrough", q(TTS, "color"): "rgba(9,8,7,6)"}, [" A "]),
+            mk("br"), mk("span", {"begin": tx(1, 0), "end": tx(3, 1), q(TTS, "visibility"): "hidden", q(TTS, "display"): "auto"}, ["B"])]),
+        mk("p", {"begin": tx(2, 1), "dur": tx(5, 0), q(TTS, "fontStyle"): "oblique"}, ["C ", mk("span", {"style": "s0"}, ["D"])])])])
+    a = {q(XML, "space"): "default", q(TTP, "frameRate"): "25", q(TTP, "frameRateMultiplier"): "1 1", q(TTP, "tickRate"): "1000",
+         q(TTP, "cellResolution"): "40 20", q(TTS, "extent"): "1280px 720px"}
+    docs.append((name, _serialise(tt(head, body, a))))
+  return docs
+
+
 def handmade_docs():
   """small documents for specific rules"""
   P = lambda a, k: mk("p", a, k)
@@ -1309,6 +1345,13 @@ def _work(item):
   rec = Recorder("C04", "", {})
   state = {"min_budget_s": 25.0 if tier == "quick" else 120.0}
   docs = []
+  if kind == "sink":
+    name, xml_text = sink_docs()[lo]
+    res = check_doc(rec, xml_text, f"sink/{name}", state)
+    cases = corrupt_cases(xml_text, rng(0, "c04/sink"), None)
+    for case in cases[hi::4]:
+      check_corruption(rec, case, f"sink/{name}")
+    return rec
   if kind == "fixed":
     allf = [("time-syntax", d) for d in time_syntax_docs()] + [("containers", d) for d in container_docs()]
     docs = [(f"{n}/{i}", d) for i, (n, d) in enumerate(allf)][lo:hi]
@@ -1349,6 +1392,9 @@ def plan(tier, seed):
   for lo in range(0, nfixed, step):
     items.append(("fixed", lo, min(nfixed, lo + step), seed, tier))
   items.append(("handmade", 0, 0, seed, tier))
+  for i in range(len(sink_docs())):
+    for part in range(4):
+      items.append(("sink", i, part, seed, tier))
   sizes = {"random": 240, "timing": 280, "style": 240, "space": 160, "region": 160, "ruby": 80, "seq-indef": 40}
   mult = 1 if quick else 16
   for kind, n in sizes.items():
@@ -1367,7 +1413,8 @@ def main():
                  "xml:space/lang, ruby; hand-made rule documents; the local .ttml files) x every interval boundary, midpoint and one instant "
                  "after the last boundary; then each document with one attribute corrupted (catalogue of malformed values, unknown tokens, "
                  "unknown attributes).  A case is non-trivial when it is a distinct (contract, document) pair",
-                 {"families": sorted(set(i[0] for i in items)), "documents": sum(max(0, i[2] - i[1]) for i in items), "tier": args.tier})
+                 {"families": sorted(set(i[0] for i in items)), "documents": sum(max(0, i[2] - i[1]) for i in items if i[0] != "sink"),
+                  "tier": args.tier})
   oos = 0
   for part in parallel(work, items):
     for k, v in part.failures.items():        # keep the shortest witness of a key
